@@ -595,6 +595,22 @@ def check_disassembly_colors(ctx, tables):
       for a in ast.walk(n):
         if isinstance(a, ast.Attribute) and unparse(a.value).endswith("NamedColors") and a.attr in rgb_of:
           tested.add(rgb_of[a.attr])
+        # a loop variable that ranges over a column of a constant table of (colour, mnemonic) rows
+        if isinstance(a, ast.Name):
+          from ..core import ancestors
+          for lp in ancestors(n):
+            if isinstance(lp, ast.For):
+              tnames = [t.id if isinstance(t, ast.Name) else None for t in (lp.target.elts if isinstance(lp.target, (ast.Tuple, ast.List)) else [lp.target])]
+              if a.id in tnames:
+                r = ix.resolve(f.module, lp.iter, cls=f.cls, func=f) if isinstance(lp.iter, (ast.Name, ast.Attribute)) else None
+                table = r[2] if isinstance(r, tuple) and r[0] == "assign" else (lp.iter if isinstance(lp.iter, (ast.Tuple, ast.List)) else None)
+                if isinstance(table, (ast.Tuple, ast.List)):
+                  col = tnames.index(a.id)
+                  for row in table.elts:
+                    cell = row.elts[col] if isinstance(row, (ast.Tuple, ast.List)) and col < len(row.elts) and isinstance(lp.target, (ast.Tuple, ast.List)) else row
+                    for x in ast.walk(cell):
+                      if isinstance(x, ast.Attribute) and unparse(x.value).endswith("NamedColors") and x.attr in rgb_of:
+                        tested.add(rgb_of[x.attr])
   ctx.floor("DSP-disasm-colors", "colours with a mnemonic", len(tested), 7)
   producible = {}
   for name, v in tables["attribute"].items():
